@@ -3,6 +3,7 @@ import XV.Driver.Utf8
 import XV.Driver.Regex
 import XV.Driver.Codec
 import XV.Driver.Ns
+import XV.Driver.Dt
 import XV.Driver.ContentModel
 import XV.Driver.DtdValid
 open XV.Driver
@@ -20,5 +21,7 @@ def main (args : List String) : IO UInt32 := do
   | ["ns"] => lineLoop stdin stdout XV.Driver.Ns.handle; return 0
   | ["nsspec"] => lineLoop stdin stdout XV.Driver.Ns.handleSpec; return 0
   | ["nsmodel"] => lineLoop stdin stdout XV.Driver.Ns.handleModel; return 0
+  | ["dt"] => lineLoop stdin stdout XV.Driver.Dt.handle; return 0
+  | ["dtspec"] => lineLoop stdin stdout XV.Driver.Dt.handleSpec; return 0
   | ["utf8spec"] => lineLoop stdin stdout XV.Driver.Utf8.handleSpec; return 0
   | _ => IO.eprintln "usage: xvdriver <area>"; return 2
